@@ -65,7 +65,7 @@ func rulesC04(r *Run) {
 	r.Kind("R4", "K1")
 	m := planMachine(r, "R4")
 	ruleContJoin(r, "R4", m)
-	r.Expect("R4", 6)
+	r.Expect("R4", 9)
 
 	// ---- R5
 	r.Kind("R5", "K7")
@@ -506,8 +506,109 @@ func ruleContJoin(r *Run, rule string, m *Machine) {
 			"the goroutine started in %s is cancelled and drained only in %v, but the machine can terminate without passing there: %s — the check goroutine (and its plugin) may still be running when the plan is reported finished", sp.state, js, wit)
 		for _, j := range js {
 			ruleDrainState(r, rule, m.States[j], sp.owner)
+			ruleDrainHasProducer(r, rule, m, j, sp.owner)
 		}
 	}
+}
+
+// ruleDrainHasProducer: a state may range over the continuous-check channel only if something
+// is guaranteed to close it: either every route to the state passes a state that, on all of its
+// paths, spawns the producer (which closes on exit) or closes the channel itself — or the drain
+// is locally guarded by `contCancel != nil` (assigned only when the producer is spawned).
+func ruleDrainHasProducer(r *Run, rule string, m *Machine, join, owner string) {
+	fn := m.States[join]
+	if fn == nil {
+		return
+	}
+	// states that always spawn or close
+	always := map[string]bool{}
+	for st, sf := range m.States {
+		if sf == nil {
+			continue
+		}
+		fl := r.P.FlowOf(sf)
+		paths, ok := fl.Paths()
+		if !ok {
+			continue
+		}
+		all, any := true, false
+		for i := range paths {
+			p := &paths[i]
+			if p.Exit != ExitReturn {
+				continue
+			}
+			done := false
+			for _, e := range p.Ev {
+				if e.Kind == EvCall && CalleeKey(e) == "builtin.close" && len(e.Call.Args) == 1 && chanOwner(fl.Info, e.Call.Args[0]) == owner {
+					done = true
+				}
+				if IsCall(e, keySubmit) {
+					if l := LitArg(e.Call); l != nil {
+						ast.Inspect(l.Body, func(n ast.Node) bool {
+							if c, ok := n.(*ast.CallExpr); ok {
+								if f, ok := calleeFunc(fl.Info, c); ok && FuncKey(f) == smKey("runContChecks") && len(c.Args) == 3 && chanOwner(fl.Info, c.Args[2]) == owner {
+									done = true
+								}
+							}
+							return true
+						})
+					}
+				}
+			}
+			if done {
+				any = true
+			} else {
+				all = false
+			}
+		}
+		if all && any {
+			always[st] = true
+		}
+	}
+	dominated := true
+	for _, entry := range []string{"Start", "Recovery"} {
+		if _, ok := m.States[entry]; !ok {
+			continue
+		}
+		if m.reach(entry, always)[join] && !always[join] {
+			dominated = false
+		}
+	}
+	// local guard
+	fl, paths, ok := r.flowPaths(rule, fn)
+	if !ok {
+		return
+	}
+	guarded := true
+	var pos token.Pos = fn.Decl.Pos()
+	for i := range paths {
+		p := &paths[i]
+		cancelNonNil := false
+		for _, e := range p.Ev {
+			if e.Kind == EvBranch && e.Cond != nil {
+				for _, cj := range conjuncts(e.Cond) {
+					if x, op, ok := IsNilCompare(fl.Info, cj); ok && e.Taken && op == token.NEQ {
+						if sel, ok := x.(*ast.SelectorExpr); ok && sel.Sel.Name == "contCancel" {
+							if tv, ok := fl.Info.Types[sel.X]; ok && ShortType(tv.Type) == owner {
+								cancelNonNil = true
+							}
+						}
+					}
+				}
+			}
+			if e.Kind == EvRange && chanOwner(fl.Info, e.Chan) == owner && !cancelNonNil {
+				guarded = false
+				pos = e.Pos
+			}
+		}
+	}
+	var closers []string
+	for st := range always {
+		closers = append(closers, st)
+	}
+	sort.Strings(closers)
+	r.Check(rule, "cont-drain-has-producer:"+join, pos, dominated || guarded,
+		"%s ranges over the %s.contCheckResult channel, but the machine can get there without passing a state that always spawns its producer or closes it (%v), and the drain is not guarded by `contCancel != nil`: nothing ever closes the channel, so the state blocks forever and the plan never ends (e.g. a block whose PreChecks fail while it has ContChecks)", join, owner, closers)
 }
 
 func witnessAvoiding(m *Machine, from string, avoid map[string]bool, to string) string {
